@@ -91,7 +91,7 @@ let handle (cmd : string) (rest : string) : string =
         | Sleep d -> Printf.sprintf "sleep:%d" (int_of_n d)
         | ServeConn i -> Printf.sprintf "serve:%d" (int_of_nat i)
         | CloseLate i -> Printf.sprintf "late:%d" (int_of_nat i) in
-      String.concat "," (List.map show_act acts) ^ "|" ^ (match res with RNil -> "nil" | RErr -> "err" | RRunning -> "running")
+      String.concat "," (List.map show_act acts) ^ "|" ^ (match res with ARNil -> "nil" | ARErr -> "err" | ARRunning -> "running")
   | "client" | "clientdv" ->
       (* client conn=1 rt=0 wt=1 ver=1.4 op=<hex> | <payload val or offer> | <reply hex> *)
       (match String.split_on_char '|' rest with
@@ -133,4 +133,39 @@ let handle (cmd : string) (rest : string) : string =
             | None -> "config-not-understood"
             | Some c -> if (if role = "server" then server_handshake_ok c p else client_handshake_ok c p) then "admitted" else "refused")
        | _ -> "driver-error tls syntax")
+  | "shutdown" ->
+      (* forced schedule tokens -> labels of the interleaving model (Shutdown.v); while Shutdown is closing the
+         listener it holds the mutex, so a released connection is registered only after the close went through *)
+      let apply s l = match step true s l with Some s' -> s' | None -> s in
+      let apply_all s ls = List.fold_left apply s ls in
+      let internal = [ LWaitReturn; LWaitSignal; LShSelectDone; LShSelectCtx; LAcceptFail ] in
+      (* all states reachable by internal steps in which no internal step is enabled any more *)
+      let rec explore (s : st) : st list =
+        let succs = List.filter_map (fun l -> step true s l) internal in
+        if succs = [] then [ s ] else List.concat_map explore succs in
+      let uniq l = List.sort_uniq compare l in
+      let states = ref [ init ] in
+      let mutex_held = ref false and deferred = ref [] in
+      String.iter
+        (fun tok ->
+          let labels =
+            match tok with
+            | 'c' -> [ LConnect; LAcceptDequeue ]
+            | 'r' ->
+                if !mutex_held then (deferred := !deferred @ [ LRegister; LSpawn; LAcceptDequeue ]; [])
+                else [ LRegister; LSpawn; LAcceptDequeue ]
+            | '0' -> [ LSessClose O; LSessDone O ]
+            | '1' -> [ LSessClose (S O); LSessDone (S O) ]
+            | 'S' -> mutex_held := true; [ LShCloseDone ]
+            | 'k' -> mutex_held := false; let d = !deferred in deferred := []; [ LShCloseListener ] @ d @ [ LShStartWaiter ]
+            | 'x' -> [ LCtxExpire ]
+            | _ -> failwith "token" in
+          states := uniq (List.concat_map (fun s -> explore (apply_all s labels)) !states))
+        rest;
+      let show_sh s = match s.s_pc with SNotCalled -> "notcalled" | SReturned RNil -> "nil" | SReturned RCtx -> "ctx" | SReturned RErr -> "err" | _ -> "pending" in
+      let show_serve s = match s.a_pc with AReturned RNil -> "nil" | AReturned _ -> "err" | _ -> "running" in
+      let show_conn = function SNone -> "none" | SRegistered | SRunning -> "running" | SClosed | SEnded -> "ended" | SLateClosed -> "late" in
+      let show_conns s = String.concat "," (List.map show_conn s.sess) in
+      let set f = String.concat "/" (uniq (List.map f !states)) in
+      Printf.sprintf "sh=%s serve=%s conns=%s" (set show_sh) (set show_serve) (set show_conns)
   | _ -> "unknown-command " ^ cmd
